@@ -486,5 +486,10 @@ func Run(c *common.Ctx) error {
 		}
 	}
 	_ = lfs.ChecksumFlag
+	for _, wal := range []bool{false, true} {
+		if err := forwardedApply(c, c.Rng.Fork(), wal); err != nil {
+			return err
+		}
+	}
 	return nil
 }
